@@ -1,5 +1,119 @@
-"""Sensitivity corpus (thorough tier): placeholder, filled in later."""
+"""Sensitivity corpus (thorough tier).
+
+For each seeded variant under /verif/mutants/<ID>/*.patch (a still-compiling change that
+breaks one decided clause) the repository is copied to a scratch directory outside /repo
+and /verif, the patch applied, facts re-extracted *statically* with the shared target
+directory, and the property's rules must report the expected rule.  The scratch copy is
+removed immediately.  A patch that no longer applies is reported as skipped.  This
+validates the checker; the verdict on /repo remains the static one.
+"""
+import os
+import random
+import re
+import shutil
+import subprocess
+import tempfile
+
+from tc import extract
+from tc.facts import Facts
+from tc.report import Report, VERIF
+
+MUTANTS = os.path.join(VERIF, "mutants")
+SCRATCH_ROOT = os.environ.get("TCVERIF_SCRATCH", "/var/tmp")
+
+
+def copy_repo(repo, dst):
+    subprocess.check_call(["rsync", "-a", "--exclude", "/target", "--exclude", "/.git", repo.rstrip("/") + "/", dst + "/"])
+
+
+def parse_header(path):
+    exp = []
+    with open(path) as f:
+        for line in f:
+            m = re.match(r"^#\s*expect:\s*(.+)$", line)
+            if m:
+                exp += [x.strip() for x in m.group(1).split(",") if x.strip()]
+            if line.startswith("--- ") or line.startswith("diff "):
+                break
+    return exp
+
+
+def run_rules_on(repo, prop):
+    import props
+
+    facts_path, h, info = extract.ensure_facts(repo)
+    F = Facts(facts_path)
+    R2 = Report(prop, "quick", 0)
+    spec = props.PROPS[prop]
+    for rule in spec["rules"]:
+        rule(F, R2)
+    return R2
+
+
+def apply_patch(scratch, patch):
+    r = subprocess.run(["patch", "-p1", "--no-backup-if-mismatch", "-s", "-f", "-i", patch], cwd=scratch,
+                       stdout=subprocess.PIPE, stderr=subprocess.STDOUT, text=True)
+    return r.returncode == 0, r.stdout
+
+
+def check_patch(prop, patch, repo="/repo"):
+    """returns (status, detail, violations) status in detected|missed|skipped|nocompile"""
+    exp = parse_header(patch)
+    scratch = tempfile.mkdtemp(prefix="tcverif-mut-", dir=SCRATCH_ROOT)
+    try:
+        copy_repo(repo, scratch)
+        ok, out = apply_patch(scratch, patch)
+        if not ok:
+            return "skipped", "patch does not apply to the current tree: " + out.strip()[:200], []
+        try:
+            R2 = run_rules_on(scratch, prop)
+        except extract.ExtractError as e:
+            return "nocompile", str(e)[-600:], []
+        rules_fired = sorted({v["rule"] for v in R2.violations})
+        keys = [v["key"] for v in R2.violations]
+        from tc.report import load_known
+        known = {e["key"] for e in load_known() if e.get("status") == "known" and e.get("property") == prop}
+        newkeys = [k for k in keys if k not in known]
+        newrules = sorted({v["rule"] for v in R2.violations if v["key"] not in known})
+        if exp:
+            hit = [e for e in exp if any(e == r or k.startswith(e + "|") or e in k for r in newrules for k in newkeys)]
+            if hit:
+                return "detected", "expected %s; fired %s" % (exp, newkeys), R2.violations
+            return "missed", "expected %s; fired %s" % (exp, newkeys), R2.violations
+        if newkeys:
+            return "detected", "fired %s" % newkeys, R2.violations
+        return "missed", "nothing fired", R2.violations
+    finally:
+        shutil.rmtree(scratch, ignore_errors=True)
 
 
 def run(prop, R, seed):
-    return
+    d = os.path.join(MUTANTS, prop)
+    if not os.path.isdir(d):
+        R.extra["sensitivity"] = {"variants": 0}
+        return
+    patches = sorted(os.path.join(d, f) for f in os.listdir(d) if f.endswith(".patch"))
+    random.Random(seed).shuffle(patches)
+    res = []
+    for p in patches:
+        status, detail, _v = check_patch(prop, p)
+        res.append({"variant": os.path.basename(p), "status": status, "detail": detail})
+        if status == "missed":
+            print("SENSITIVITY-MISS: property=%s variant=%s %s" % (prop, os.path.basename(p), detail))
+    R.extra["sensitivity"] = {
+        "variants": len(res),
+        "detected": len([r for r in res if r["status"] == "detected"]),
+        "missed": [r for r in res if r["status"] == "missed"],
+        "skipped": [r for r in res if r["status"] in ("skipped", "nocompile")],
+        "results": res,
+    }
+
+
+if __name__ == "__main__":
+    import sys
+    sys.path.insert(0, os.path.dirname(os.path.abspath(__file__)))
+    prop, patch = sys.argv[1], sys.argv[2]
+    st, detail, viol = check_patch(prop, os.path.abspath(patch))
+    print(st, detail)
+    for v in viol:
+        print("   ", v["key"], "--", v["message"][:200])
